@@ -1793,6 +1793,11 @@ void Validator::ValidatorImpl::validateMath(const std::string &input, const Comp
 
         mathNode = mathmlDoc->rootNode();
 
+        if (mathNode == nullptr) {
+            // The clean math string could not be parsed, which has been reported above.
+            continue;
+        }
+
         auto childCount = mathmlChildCount(mathNode);
 
         for (size_t i = 0; i < childCount; ++i) {
